@@ -594,7 +594,9 @@ package tree
 
 //@ func (*tree.Tree).computeEdgeHashesRightRecur
 //@   flag noframe
-//@   requires t != nil && cur != nil && INV12() && (len(cur.neigh) == 1 ==> e != nil)
+// (a starting node with a single neighbour - the root of `(A);` or `((A,B));` as the reader delivers them - has no
+// branch above it: it is walked through like an inner node, never dereferencing the absent branch)
+//@   requires t != nil && cur != nil && INV12()
 //@   store Edge.hashcoderight [reset_then_name_hash_of_a_tip_or_plus_the_sum_of_a_child_branch] target == e && (newval == 0 || (len(cur.neigh) == 1 && newval == taxhash(cur.name)) || (len(cur.neigh) != 1 && newval == oldval + nextEdge.hashcoderight))
 //@   store Edge.ntaxright [reset_then_one_for_a_tip_or_plus_the_count_of_a_child_branch] target == e && (newval == 0 || (len(cur.neigh) == 1 && newval == oldval + 1) || (len(cur.neigh) != 1 && newval == oldval + nextEdge.ntaxright))
 //@   call (*tree.Tree).computeEdgeHashesRightRecur [descends_to_every_other_neighbour_through_its_own_branch] a1 == n && a2 == cur && a3 == nextEdge && n != prev && nextEdge == cur.br[rangeindex + 1]
